@@ -75,6 +75,28 @@ def prespawn_scripts(rng, tier):
         sf = len(lines)
         lines += gen_scripts.settle_lines(meta)
         out.append(("prespawn-early-%d" % i, lines, sf))
+    # the server entity was referenced by a component before it became visible (the client holds a placeholder for it) and is
+    # then mapped to a pre-spawned entity in the tick it becomes visible.  This is the class of the open finding D17 (the
+    # placeholder is orphaned, C01); the adoption itself must still work: judged by the C16 oracle only.
+    for i in range(n // 3):
+        white = rng.random() < 0.5
+        lines = ["cfg policy=%s auth=none track=0 nclients=1 timeout=10000" % ("white" if white else "black"), "start", "sframe 0 10", "connect 0 1200"]
+        lines.append("sop spawn 1 1 0=%d" % rng.randrange(50))
+        if not white:
+            lines.append("sop vis 0 1 0")
+        lines.append("sop spawn 2 1 3=r1")
+        if white:
+            lines.append("sop vis 0 2 1")
+        lines += ["sframe 1 16", "deliver 0 s2c 0 all", "cop 0 prespawn 0", "cframe 0"]
+        if rng.random() < 0.5:
+            lines += ["sop mutate 1 0=%d" % rng.randrange(50), "sframe 1 16"]
+        lines += ["sop vis 0 1 1", "sop map 0 1 0", "sframe 1 16", "deliver 0 s2c 0 all", "cframe 0"]
+        for _ in range(rng.randrange(1, 3)):
+            lines += ["sop mutate 1 0=%d" % rng.randrange(50, 99), "sframe 1 16"]
+        meta = dict(connected=[0], events=False)
+        sf = len(lines)
+        lines += gen_scripts.settle_lines(meta)
+        out.append(("prespawn-after-reference-%d" % i, lines, sf, {"C16"}))
     return out
 
 
